@@ -227,3 +227,32 @@ fn parser_drop_releases_parser_and_read_state() {
 	// parser if the reader's destructor unwinds)
 	assert!(unsafe { !READ_STATE_FREED_BEFORE_PARSER_DELETE }, "the read state was freed while the libyaml parser that points to it was still alive");
 }
+
+/// C11 (position of a YAML error) / C04: `LocatedError::from_parts` for EVERY mark and override:
+/// line and column are libyaml's zero-based values plus one; the byte offset is the mark's index when libyaml set one
+/// (index > 0), otherwise the separately reported problem offset (reader errors: invalid UTF-8 octet, control
+/// character -- libyaml leaves their mark at zero), otherwise 0.  Precondition: line, column < u64::MAX (libyaml counts
+/// bytes of an in-memory stream).  Complete: loop-free, full-domain symbolic inputs.
+#[kani::proof]
+fn located_error_from_parts_contract() {
+	let index: u64 = kani::any();
+	let line: u64 = kani::any();
+	let column: u64 = kani::any();
+	kani::assume(line < u64::MAX && column < u64::MAX);
+	let over: Option<u64> = kani::any();
+	// (yaml_mark_t is #[non_exhaustive]: three plain u64 fields, built from zeroes)
+	let mut mark: yaml_mark_t = unsafe { std::mem::zeroed() };
+	mark.index = index; mark.line = line; mark.column = column;
+	let e = LocatedError::from_parts(String::new(), mark, over);
+	assert!(e.line == line + 1 && e.column == column + 1);
+	if index > 0 {
+		assert!(e.offset == index, "libyaml's own mark is the position");
+	} else {
+		match over {
+			Some(o) => assert!(e.offset == o, "a reader error is located by its problem offset"),
+			None => assert!(e.offset == 0),
+		}
+	}
+	kani::cover!(index == 0 && over.is_some() && e.offset > 0, "reader error located by its override offset");
+	kani::cover!(index > 0 && over.is_some(), "mark wins over the override");
+}
